@@ -111,6 +111,14 @@ func (t *Input) CoerceIn(v interface{}) (interface{}, error) {
 				rv = reflect.New(rt)
 			}
 		}
+		// The argument is not modified, it might be a literal of a parsed
+		// request or belong to the caller. Build the result in a copy.
+		src := tv
+		tv = make(map[string]interface{}, len(src))
+		for k, ov := range src {
+			tv[k] = ov
+		}
+		v = tv
 		for k, f := range t.fields.dict {
 			ov := tv[k]
 			if ov == nil {
